@@ -35,19 +35,27 @@ theorem go_wf (s : St) : ∀ (b buf : List Nat) (wf fin : Nat) (out : List (Nat 
     obtain ⟨buf1, wf1, em⟩ := d
     exact ih buf1 wf1 _ _ h1
 
-/-- what `afterResults` does inside a call -/
-theorem afterResults_spec (s : St) (call : Call) (hc : s.cur = some call) (hwf : s.wf ∉ s.buffer) :
-    ∃ buf' wf' fin' out' c',
-      afterResults s = { s with buffer := buf', wf := wf', finished := fin', out := out', batch := [], woken := false,
-                                cpc := c' } ∧
-      wf' ∉ buf' ∧
-      ((call.ordered = true ∧ ((c' = .flowClear ∧ bufferFull (afterResults s) = true) ∨
-          (c' = .flowIsSet ∧ bufferFull (afterResults s) = false))) ∨
-       (call.ordered = false ∧ c' = .rdSending ∧ buf' = s.buffer)) := by
+theorem go_fin (s : St) : ∀ (b buf : List Nat) (wf fin : Nat) (out : List (Nat × Nat)),
+    fin ≤ (consumeBatch.go s b buf wf fin out).2.2.1 := by
+  intro b
+  induction b with
+  | nil => intro buf wf fin out; simp [consumeBatch.go]
+  | cons i r ih =>
+    intro buf wf fin out
+    unfold consumeBatch.go
+    generalize drainBuffer (buf.length + 2) (i :: buf) wf [] = d
+    obtain ⟨buf1, wf1, em⟩ := d
+    exact Nat.le_trans (Nat.le_add_right _ _) (ih buf1 wf1 _ _)
+
+/-- what `consumeBatch` does inside a call, as an update of the state -/
+theorem consumeBatch_view (s : St) (call : Call) (hc : s.cur = some call) (hwf : s.wf ∉ s.buffer) :
+    ∃ buf' wf' fin' out',
+      consumeBatch s = { s with buffer := buf', wf := wf', finished := fin', out := out', batch := [], woken := false } ∧
+      wf' ∉ buf' ∧ (call.ordered = false → buf' = s.buffer) ∧ s.finished ≤ fin' := by
   cases ho : call.ordered
-  · refine ⟨s.buffer, s.wf, s.finished + s.batch.length, s.out ++ s.batch.map (fun j => (s.callNo, j)), .rdSending, ?_, hwf,
-      Or.inr ⟨rfl, rfl, rfl⟩⟩
-    unfold afterResults consumeBatch
+  · refine ⟨s.buffer, s.wf, s.finished + s.batch.length, s.out ++ s.batch.map (fun j => (s.callNo, j)), ?_, hwf,
+      fun _ => rfl, Nat.le_add_right _ _⟩
+    unfold consumeBatch
     simp [hc, ho]
   · have hg := go_wf s s.batch s.buffer s.wf s.finished s.out hwf
     have hcb : consumeBatch s =
@@ -57,19 +65,61 @@ theorem afterResults_spec (s : St) (call : Call) (hc : s.cur = some call) (hwf :
                  out := (consumeBatch.go s s.batch s.buffer s.wf s.finished s.out).2.2.2, batch := [], woken := false } := by
       unfold consumeBatch
       simp [hc, ho]
-    generalize consumeBatch.go s s.batch s.buffer s.wf s.finished s.out = g at hg hcb
+    have hfin : s.finished ≤ (consumeBatch.go s s.batch s.buffer s.wf s.finished s.out).2.2.1 := go_fin s _ _ _ _ _
+    generalize consumeBatch.go s s.batch s.buffer s.wf s.finished s.out = g at hg hcb hfin
     obtain ⟨buf, wf, fin, out⟩ := g
-    dsimp only at hg hcb
-    have hcur : (consumeBatch s).cur = some call := by rw [hcb]; exact hc
-    cases hbf : bufferFull (consumeBatch s)
-    · have har : afterResults s = { consumeBatch s with cpc := .flowIsSet } := by
-        unfold afterResults; simp [hcur, ho, hbf]
-      refine ⟨buf, wf, fin, out, .flowIsSet, by rw [har, hcb], hg, Or.inl ⟨rfl, Or.inr ⟨rfl, ?_⟩⟩⟩
-      rw [har]; exact hbf
-    · have har : afterResults s = { consumeBatch s with cpc := .flowClear } := by
-        unfold afterResults; simp [hcur, ho, hbf]
-      refine ⟨buf, wf, fin, out, .flowClear, by rw [har, hcb], hg, Or.inl ⟨rfl, Or.inl ⟨rfl, ?_⟩⟩⟩
-      rw [har]; exact hbf
+    dsimp only at hg hcb hfin
+    exact ⟨buf, wf, fin, out, hcb, hg, fun h => Bool.noConfusion h, hfin⟩
+
+/-- the same without the reorder-buffer hypothesis -/
+theorem consumeBatch_view0 (s : St) (call : Call) (hc : s.cur = some call) :
+    ∃ buf' wf' fin' out',
+      consumeBatch s = { s with buffer := buf', wf := wf', finished := fin', out := out', batch := [], woken := false } ∧
+      s.finished ≤ fin' := by
+  cases ho : call.ordered
+  · refine ⟨s.buffer, s.wf, s.finished + s.batch.length, s.out ++ s.batch.map (fun j => (s.callNo, j)), ?_,
+      Nat.le_add_right _ _⟩
+    unfold consumeBatch
+    simp [hc, ho]
+  · have hcb : consumeBatch s =
+        { s with buffer := (consumeBatch.go s s.batch s.buffer s.wf s.finished s.out).1,
+                 wf := (consumeBatch.go s s.batch s.buffer s.wf s.finished s.out).2.1,
+                 finished := (consumeBatch.go s s.batch s.buffer s.wf s.finished s.out).2.2.1,
+                 out := (consumeBatch.go s s.batch s.buffer s.wf s.finished s.out).2.2.2, batch := [], woken := false } := by
+      unfold consumeBatch
+      simp [hc, ho]
+    have hfin : s.finished ≤ (consumeBatch.go s s.batch s.buffer s.wf s.finished s.out).2.2.1 := go_fin s _ _ _ _ _
+    generalize consumeBatch.go s s.batch s.buffer s.wf s.finished s.out = g at hcb hfin
+    obtain ⟨buf, wf, fin, out⟩ := g
+    dsimp only at hcb hfin
+    exact ⟨buf, wf, fin, out, hcb, hfin⟩
+
+/-- what `afterResults` does inside a call -/
+theorem afterResults_spec (s : St) (call : Call) (hc : s.cur = some call) (hwf : s.wf ∉ s.buffer) :
+    ∃ buf' wf' fin' out' c',
+      afterResults s = { s with buffer := buf', wf := wf', finished := fin', out := out', batch := [], woken := false,
+                                cpc := c' } ∧
+      wf' ∉ buf' ∧
+      ((call.ordered = true ∧ ((c' = .flowClear ∧ bufferFull (afterResults s) = true) ∨
+          (c' = .flowIsSet ∧ bufferFull (afterResults s) = false))) ∨
+       (call.ordered = false ∧ c' = .rdSending ∧ buf' = s.buffer) ∨
+       (∃ wid, c' = .midReady 0 wid ∧ s.procs[0]? = some wid ∧ (call.ordered = false → buf' = s.buffer))) := by
+  obtain ⟨buf, wf, fin, out, hcb, hg, hun, _⟩ := consumeBatch_view s call hc hwf
+  have hcur : (consumeBatch s).cur = some call := by rw [hcb]; exact hc
+  obtain ⟨c', heq, hcl⟩ := afterResults_eq s
+  rcases hcl with ⟨_, hab⟩ | ⟨wid, h, hp, _⟩
+  · rcases afterBatch_cases (consumeBatch s) with ⟨c1, h1, h2, h3, h4⟩ | ⟨c1, h1, h2, h3, h4⟩ | ⟨h1, h4⟩
+    · rw [hcur] at h1; cases h1
+      refine ⟨buf, wf, fin, out, .flowClear, by rw [hab, h4, hcb], hg, Or.inl ⟨h2, Or.inl ⟨rfl, ?_⟩⟩⟩
+      rw [hab, h4]; exact h3
+    · rw [hcur] at h1; cases h1
+      refine ⟨buf, wf, fin, out, .flowIsSet, by rw [hab, h4, hcb], hg, Or.inl ⟨h2, Or.inr ⟨rfl, ?_⟩⟩⟩
+      rw [hab, h4]; exact h3
+    · have ho := h1 call hcur
+      exact ⟨buf, wf, fin, out, .rdSending, by rw [hab, h4, hcb], hg, Or.inr (Or.inl ⟨ho, rfl, hun ho⟩)⟩
+  · subst h
+    refine ⟨buf, wf, fin, out, _, by rw [heq, hcb], hg, Or.inr (Or.inr ⟨wid, rfl, ?_, hun⟩)⟩
+    rw [hcb] at hp; exact hp
 
 /-! ### the next call, or `__exit__` -/
 
